@@ -40,7 +40,12 @@ class Call(Expression):
         out += (STATUS, RESULT, POS) << Yield((CALL, func, POS))
 
 
-class KeywordArg:
+class KeywordArg(Expression):
+    # An expression node, so that the translator's passes (ids, local
+    # references, ignored-token flags, regex precompilation) reach the argument.
+    is_commented = False
+    is_tagged = False
+
     def __init__(self, name, expr):
         self.name = name
         self.expr = expr
